@@ -204,12 +204,14 @@ package graph
 //@   ensures  [count] len(result) == len(g.hash)
 //@   ensures  [sound] forall(i, int, imp(0 <= i && i < len(result), exists(k, any, has(g.hash, k) && result[i] == g.hash[k])))
 //@   ensures  [complete] forall(k, any, imp(has(g.hash, k), exists(i, int, 0 <= i && i < len(result) && result[i] == g.hash[k])))
+//@   ensures  [reps] forall(i, int, imp(0 <= i && i < len(result), has(g.hash, hc(result[i])) && g.hash[hc(result[i])] == result[i]))
 //@   assigns  []Vertex
 //@   modifies nothing
 //@   quietframe
 //@   loop 1 invariant sliceskept([]Vertex) && fresh(result)
 //@   loop 1 invariant len(result) == len(seen1) && soff(result) == 0
 //@   loop 1 invariant forall(k, any, imp(in(k, seen1), has(g.hash, k)))
+//@   loop 1 invariant forall(i, int, imp(0 <= i && i < len(result), has(g.hash, hc(result[i])) && g.hash[hc(result[i])] == result[i]))
 //@   loop 1 invariant forall(i, int, imp(0 <= i && i < len(result), exists(k, any, in(k, seen1) && result[i] == g.hash[k])))
 //@   loop 1 invariant forall(k, any, imp(in(k, seen1), exists(i, int, 0 <= i && i < len(result) && result[i] == g.hash[k])))
 
@@ -220,6 +222,7 @@ package graph
 //@   ensures  [count] len(result) == len(g.adjacencyOut[hc(v)])
 //@   ensures  [sound] forall(i, int, imp(0 <= i && i < len(result), exists(b, any, edge(g, hc(v), b) && result[i] == g.hash[b])))
 //@   ensures  [complete] forall(b, any, imp(edge(g, hc(v), b), exists(i, int, 0 <= i && i < len(result) && result[i] == g.hash[b])))
+//@   ensures  [reps] forall(i, int, imp(0 <= i && i < len(result), edge(g, hc(v), hc(result[i])) && has(g.hash, hc(result[i])) && g.hash[hc(result[i])] == result[i]))
 //@   assigns  []Vertex
 //@   modifies nothing
 //@   quietframe
@@ -227,6 +230,7 @@ package graph
 //@   loop 1 invariant len(result) == len(seen1) && soff(result) == 0 && rmap1 == edges && edges == g.adjacencyOut[hc(v)]
 //@   loop 1 invariant forall(k, any, imp(in(k, seen1), has(edges, k)))
 //@   loop 1 invariant forall(k, any, imp(in(k, seen1), edge(g, hc(v), k)))
+//@   loop 1 invariant forall(i, int, imp(0 <= i && i < len(result), edge(g, hc(v), hc(result[i])) && has(g.hash, hc(result[i])) && g.hash[hc(result[i])] == result[i]))
 //@   loop 1 invariant forall(i, int, imp(0 <= i && i < len(result), exists(k, any, in(k, seen1) && result[i] == g.hash[k])))
 //@   loop 1 invariant forall(k, any, imp(in(k, seen1), exists(i, int, 0 <= i && i < len(result) && result[i] == g.hash[k])))
 
@@ -237,6 +241,7 @@ package graph
 //@   ensures  [count] len(result) == len(g.adjacencyIn[hc(v)])
 //@   ensures  [sound] forall(i, int, imp(0 <= i && i < len(result), exists(a, any, edge(g, a, hc(v)) && result[i] == g.hash[a])))
 //@   ensures  [complete] forall(a, any, imp(edge(g, a, hc(v)), exists(i, int, 0 <= i && i < len(result) && result[i] == g.hash[a])))
+//@   ensures  [reps] forall(i, int, imp(0 <= i && i < len(result), edge(g, hc(result[i]), hc(v)) && has(g.hash, hc(result[i])) && g.hash[hc(result[i])] == result[i]))
 //@   assigns  []Vertex
 //@   modifies nothing
 //@   quietframe
@@ -244,6 +249,7 @@ package graph
 //@   loop 1 invariant len(result) == len(seen1) && soff(result) == 0 && rmap1 == edges && edges == g.adjacencyIn[hc(v)]
 //@   loop 1 invariant forall(k, any, imp(in(k, seen1), has(edges, k)))
 //@   loop 1 invariant forall(k, any, imp(in(k, seen1), edge(g, k, hc(v))))
+//@   loop 1 invariant forall(i, int, imp(0 <= i && i < len(result), edge(g, hc(result[i]), hc(v)) && has(g.hash, hc(result[i])) && g.hash[hc(result[i])] == result[i]))
 //@   loop 1 invariant forall(i, int, imp(0 <= i && i < len(result), exists(k, any, in(k, seen1) && result[i] == g.hash[k])))
 //@   loop 1 invariant forall(k, any, imp(in(k, seen1), exists(i, int, 0 <= i && i < len(result) && result[i] == g.hash[k])))
 
